@@ -51,6 +51,42 @@ pub(crate) fn compress_merkle_proofs<F: RichField, H: Hasher<F>>(
     compressed_proofs
 }
 
+/// Returns the number of siblings that each of the proofs produced by `compress_merkle_proofs`
+/// for the leaves `indices` (in this order) of a tree with `2^height` leaves contains. These are
+/// exactly the siblings that `decompress_merkle_proofs` consumes.
+pub(crate) fn compressed_merkle_proof_lengths(
+    indices: &[usize],
+    height: usize,
+    cap_height: usize,
+) -> Vec<usize> {
+    let num_leaves = 1 << height;
+    let num_layers = height - cap_height;
+    // Same bookkeeping as in `compress_merkle_proofs`.
+    let mut known = vec![false; 2 * num_leaves];
+    for &i in indices {
+        for j in 0..num_layers {
+            known[(i + num_leaves) >> j] = true;
+        }
+    }
+    indices
+        .iter()
+        .map(|&i| {
+            let mut length = 0;
+            let mut index = i + num_leaves;
+            for _ in 0..num_layers {
+                let sibling_index = index ^ 1;
+                if !known[sibling_index] {
+                    length += 1;
+                    known[sibling_index] = true;
+                }
+                index >>= 1;
+                known[index] = true;
+            }
+            length
+        })
+        .collect()
+}
+
 /// Decompress compressed Merkle proofs.
 /// Note: The data and indices must be in the same order as in `compress_merkle_proofs`.
 pub(crate) fn decompress_merkle_proofs<F: RichField, H: Hasher<F>>(
@@ -138,6 +174,13 @@ mod tests {
         let proofs = indices.iter().map(|&i| mt.prove(i)).collect::<Vec<_>>();
 
         let compressed_proofs = compress_merkle_proofs(cap_height, &indices, &proofs);
+        assert_eq!(
+            compressed_merkle_proof_lengths(&indices, h, cap_height),
+            compressed_proofs
+                .iter()
+                .map(|p| p.len())
+                .collect::<Vec<_>>()
+        );
         let decompressed_proofs = decompress_merkle_proofs(
             &indices.iter().map(|&i| vs[i].clone()).collect::<Vec<_>>(),
             &indices,
